@@ -91,6 +91,15 @@ func grammarMain(r *run.Runner, spans bool) {
 						for _, sep := range layoutSeps[1:] {
 							grammarCase(w, pr.Layout(pr.Uniform(sep)), spans, "expr-layout")
 						}
+						// one gap at a time: a line break (or a comment, a tab) in exactly one place of an otherwise blank-free source
+						for _, one := range []string{"\n", "\r\n    ", " // c\n", "\t"} {
+							base := pr.Uniform("")
+							for gi := range base {
+								seps := append([]string{}, base...)
+								seps[gi] = one
+								grammarCase(w, pr.Layout(seps), spans, "expr-layout-one-gap")
+							}
+						}
 					}
 				}
 				return !w.Stopped()
